@@ -92,6 +92,7 @@ class Lifecycle(Monitor):
         super(Lifecycle, self).__init__()
         self.accepted_cnt = {}
         self.moves = {}     # wf id -> individual moves seen since last SNAP
+        self.first_result = {}
 
     def _wf_move(self, frm, to, ev, what):
         self.evaluations += 1
@@ -127,6 +128,8 @@ class Lifecycle(Monitor):
                 if b is None and ev['table'] == 'action' and \
                         a.get('accepted'):
                     self.accepted_cnt[ev['id']] = 1
+                    if a.get('output') not in ('{}', None):
+                        self.first_result[ev['id']] = a.get('output')
                 return
             tb = ev['table']
             if tb == 'wf':
@@ -139,7 +142,10 @@ class Lifecycle(Monitor):
                 if not chained:
                     self._wf_move(b['state'], a['state'], ev,
                                   'committed change')
-                if b['state'] in TERMINAL and not _is_rerun_unit(ev):
+                # "not altered by results or timers that arrive late": an
+                # explicit operator stop / rerun is neither
+                if b['state'] in TERMINAL and not _is_rerun_unit(ev) and \
+                        'stop_workflow' not in (ev.get('ulabel') or ''):
                     for col in ('state', 'output', 'state_info'):
                         self.evaluations += 1
                         if b.get(col) != a.get(col):
@@ -156,24 +162,32 @@ class Lifecycle(Monitor):
                         b['name'], a['state'], ev.get('ulabel')))
             elif tb == 'action':
                 self.evaluations += 1
-                if b['state'] in TERMINAL and a['state'] != b['state']:
-                    self.fire('action execution %s changed state after '
-                              'completion: %s -> %s in %s' % (
+                # a second result must never be taken: neither a second
+                # acceptance nor a different non-empty output once accepted
+                # (erasure by keep-result:false is the one allowed rewrite)
+                if b['state'] in TERMINAL and a['state'] in TERMINAL and \
+                        a['state'] != b['state']:
+                    self.fire('action execution %s changed its final state: '
+                              '%s -> %s in %s' % (
                                   b['name'], b['state'], a['state'],
-                                  ev.get('ulabel')))
+                                  ev.get('ulabel')), mech='action-refinal')
                 if not b.get('accepted') and a.get('accepted'):
                     n = self.accepted_cnt[ev['id']] = \
                         self.accepted_cnt.get(ev['id'], 0) + 1
                     if n > 1:
                         self.fire('result of action execution %s accepted '
-                                  '%d times' % (b['name'], n))
-                if b['state'] in TERMINAL and b.get('accepted') and \
-                        b.get('output') != a.get('output') and \
+                                  '%d times' % (b['name'], n),
+                                  mech='accepted-twice')
+                if a.get('accepted') and a['state'] in TERMINAL and \
                         a.get('output') not in ('{}', None):
-                    self.fire('output of completed action execution %s '
-                              'changed in %s: %s -> %s' % (
-                                  b['name'], ev.get('ulabel'),
-                                  _s(b.get('output')), _s(a.get('output'))))
+                    first = self.first_result.setdefault(ev['id'],
+                                                         a.get('output'))
+                    if first != a.get('output'):
+                        self.fire('a second result was taken for action '
+                                  'execution %s in %s: %s -> %s' % (
+                                      b['name'], ev.get('ulabel'),
+                                      _s(first), _s(a.get('output'))),
+                                  mech='second-result')
 
 
 class ExactlyOnce(Monitor):
@@ -265,7 +279,8 @@ class JoinMonitor(Monitor):
                     name, len(same)), mech='join-duplicated')
         started = (b is None and a['state'] in ('RUNNING', 'DELAYED')) or \
             (b is not None and b['state'] == 'WAITING' and
-             a['state'] in ('RUNNING', 'DELAYED', 'SUCCESS'))
+             a['state'] in ('RUNNING', 'SUCCESS'))
+        # (WAITING -> DELAYED is a *failed* join postponed by wait-after)
         if started:
             self.evaluations += 1
             routed = set()
@@ -285,7 +300,16 @@ class JoinMonitor(Monitor):
             key = a['id']
             if not _is_rerun_unit(ev):
                 n = self.starts[key] = self.starts.get(key, 0) + 1
-                if n > 1 and not self.w().reran.get(key):
+                # attempts of a retry policy are not new starts of the join
+                retry = lang.policy(wfd, name, 'retry')
+                allowed = 1
+                if isinstance(retry, dict):
+                    c = retry.get('count')
+                    allowed = 1 + c if isinstance(c, int) else None
+                elif retry is not None:
+                    allowed = None
+                if allowed is not None and n > allowed and \
+                        not self.w().reran.get(key):
                     self.fire('join %s started %d times in one run' % (
                         name, n), mech='join-restarted')
 
